@@ -401,6 +401,45 @@ class Check(PropertyCheck):
             return f"listeners/callbacks left registered after the operations ended: {obs['residue']}"
         return None
 
+    def extra_checks(self, rep, tier, rng):
+        """the operation timeout is the one the caller asked for: leaveNetwork(timeout=T) with the command accepted and no
+        matching event raises at T (virtual time), for T below and above the default"""
+        import asyncio
+        import bellows.ezsp as E
+        n = 0
+        for T in (0.5, 3.0, 10.0, 25.0):
+            d = Driver()
+            try:
+                res = {}
+
+                async def go():
+                    t0 = d.loop.time()
+                    try:
+                        await d.ez.leaveNetwork(timeout=T)
+                        res["end"] = "returned"
+                    except asyncio.TimeoutError:
+                        res["end"] = "timeout"
+                    except BaseException as e:  # noqa
+                        res["end"] = "raise:" + type(e).__name__
+                    res["after"] = round(d.loop.time() - t0, 6)
+                task = d.loop.create_task(go())
+                d.loop.settle()
+                d.reply(1)                       # the command is accepted; the stack-status event never arrives
+                guard = 0
+                while not task.done() and guard < 10:
+                    guard += 1
+                    d.loop.tick()
+                n += 1
+                if res.get("end") != "timeout" or abs(res.get("after", -1) - T) > 1e-6:
+                    rep.violation({"input": {"operation": "leaveNetwork", "timeout": T, "command": "accepted", "event": "never"},
+                                   "observed": res, "required": f"raises a timeout when the operation timeout of {T} s has passed "
+                                                                f"(default {E.NETWORK_OPS_TIMEOUT} s)"},
+                                  found_input=True, signature="events:operation-timeout-argument")
+                    break
+            finally:
+                d.close()
+        rep.cov["operation_timeout_arguments"] = n
+
     def nontrivial(self, case, obs):
         return any(e[0] == "start" for e in case) and len(case) > 1
 
